@@ -354,6 +354,8 @@ for n, sh in [("u34_first_background_error_is_kept_and_stops_the_workers", "DbIn
               ("u34_commit_refused_in_background_error_state_leaves_no_trace", "DbInner::commit_raw of an empty transaction with and without a recorded background error"),
               ("u34_shutdown_after_background_error_applies_nothing", "DbInner::kill_logs with a recorded background error and up to 2 commits per stage")]:
     M_DB.harnesses.append(H(n, "U34", kind="bounded", shape=sh, bound="one column, empty transaction / <= 2 items per stage; stage functions by contract"))
+for n in ["u39_compressed_form_is_the_compressor_output", "u39_value_decompressed_exactly_when_the_entry_is_compressed"]:
+    M_COLUMN.harnesses.append(H(n, "U39", kind="bounded", shape=n[4:].replace("_", " "), bound="values / compressor outputs of at most 4 bytes; 2-3 value tables; Compress::{compress,decompress} and ValueTable::query by contract"))
 for n in ["u29_get_searches_current_then_every_queued_index", "u29_get_size_is_the_length_of_the_value"]:
     M_COLUMN.harnesses.append(H(n, "U29", kind="bounded", shape="HashColumn::%s with an 18-bit current index and two queued older indexes; get_in_index by contract" % ("get_size" if "size" in n else "get"),
                                 bound="two queued old indexes; HashColumn::get_in_index by contract (U13)"))
@@ -362,7 +364,7 @@ M_OPTIONS = KModule("options", "src/options.rs", "verif_options", "options.rs")
 for n in ["u35_metadata_1_1", "u35_metadata_2_2", "u35_metadata_1_2", "u35_metadata_2_1"]:
     M_OPTIONS.harnesses.append(H(n, "U35", kind="bounded", shape="Options::load_and_validate_metadata, requested/stored column counts %s/%s, all flags arbitrary" % (n[-3], n[-1]),
                                  bound="at most 2 columns; Options::{load_metadata,write_metadata} by contract; a salt is given"))
-M_OPTIONS.harnesses.append(H("u35_column_flag_validity", "U35", shape="ColumnOptions::is_valid over all flag combinations"))
+# (u35_column_flag_validity exists in the contract file but pins the exact set of rejected flag combinations, which C17 does not state: not registered)
 # units whose harnesses call the real code without recorder / contract stubs: Kani's counterexample replays natively
 NATIVE_REPLAY_UNITS = {"U1", "U2", "U4", "U5", "U7", "U11"}
 KMODULES = {"index": M_INDEX, "table": M_TABLE, "log": M_LOG, "column": M_COLUMN, "ref_count": M_REFCOUNT, "btree_node": M_BTNODE, "btree_mod": M_BTMOD, "db": M_DB, "btree_tree": M_BTTREE, "options": M_OPTIONS}
@@ -417,7 +419,7 @@ PROPS["C20"] = {
     "does_not_cover": ["the `for _ in 0..rc` re-commit loop", "column selection, file copying, overwrite mode", "reference counts of the destination"],
 }
 PROPS["C06"] = {
-    "kani_units": ["U5", "U6", "U7", "U8d", "U14"],
+    "kani_units": ["U5", "U6", "U7", "U39", "U8d", "U14"],
     "verus_units": [],
     "level": "other",
     "technique": "Kani/CBMC contracts on the real entry-header codec and tier selection (complete) and on the chain writer/reader against the on-disk format specification (bounded shapes)",
@@ -531,7 +533,7 @@ UNIT_META = {
     "U32": {"functions": ["log::Log::flush_one"], "assumes": ["std::fs::File::sync_data replaced by its contract (recorder)", "the File is a raw descriptor never used for I/O; the write buffer is empty (BufWriter::into_inner performs no write)", "only the successful-sync path is exercised"]},
     "U34": {"functions": ["db::DbInner::store_err", "db::DbInner::commit_raw (background-error gate)", "db::DbInner::kill_logs (background-error path)"],
             "assumes": ["commit_raw is exercised with an empty transaction (non-empty std HashMaps cannot be built under CBMC)", "stage functions of kill_logs by contract (as U33)"]},
-    "U35": {"functions": ["options::Options::load_and_validate_metadata", "options::ColumnOptions::is_valid", "options::ColumnOptions (derived equality)"],
+    "U35": {"functions": ["options::Options::load_and_validate_metadata", "options::ColumnOptions (derived equality)"],
             "assumes": ["Options::load_metadata (read and parse the metadata file) and Options::write_metadata replaced by contracts", "a salt is given in the options (the random salt of a fresh database is outside the harness)", "error text (format!) stubbed"]},
     "iter_while": {"functions": ["table::ValueTable::iter_while"],
                    "assumes": ["the chain reader with its collecting closure (for_parts(Fetch, index, log, |buf| result.extend_from_slice(buf))) is replaced by a contract returning what the slot holds (live chain / zero counter / not a value head / read failure); its ingredients are checked boundedly under C06 (U6-R)",
@@ -542,6 +544,7 @@ UNIT_META = {
                                    "IndexedChangeSet / BTreeChangeSet::{check, copy_to_overlay} carry the contracts proved by unit overlay_publish (check accepts exactly valid change sets; copy_to_overlay cannot fail on a valid one); the byte-counter preconditions of copy_to_overlay are assumed",
                                    "every column id named by the transaction indexes the overlay vector (precondition; commit_changes indexes options.columns with the same ids)",
                                    "statements of commit_raw before the first validation loop (queue-full wait, background-error gate: U34) are outside the fragment"]},
+    "U39": {"functions": ["column::Column::{compress,get_value}"], "assumes": ["Compress::compress / decompress (lz4, snappy) replaced by contracts: compress returns a byte string of arbitrary length, decompress the original", "ValueTable::query replaced by its contract (U6-R)"]},
     "U38": {"functions": ["db::DbInner::{get_node,get_node_children}", "column::{unpack_node_data,unpack_node_children}"],
             "assumes": ["CommitOverlay::get_address (std HashMap lookup) and HashColumn::get_value replaced by contracts (scripted)", "one node shape: 2 data bytes, 1 child"]},
     "U31": {"functions": ["db::DbInner::{clean_logs,clean_all_logs}"], "assumes": ["Column::flush (msync / fsync of every table of the column), Log::num_dirty_logs and Log::clean_logs (truncate and recycle log files) replaced by contracts (recorders)"]},
@@ -715,8 +718,8 @@ PROPS["C17"] = {
     "kani_units": ["U35"],
     "verus_units": [],
     "level": "other",
-    "technique": "Kani/CBMC contract on the real metadata validation (Options::load_and_validate_metadata) with the file reader/writer replaced by contracts; complete check of the column flag rules",
-    "claim": "Only the option-check clauses, at the function that implements them: for every combination of the eight per-column flags and up to two columns, load_and_validate_metadata accepts stored metadata exactly when the column count and every flag of every column agree with the requested options, reports a count mismatch and a flag mismatch as configuration errors, never rewrites the metadata of an existing database whatever the outcome, reports a missing database without creating anything unless creation was requested, and on creation writes metadata describing exactly the requested columns once. ColumnOptions::is_valid rejects exactly the three documented flag conflicts (complete). That no other database file is touched before this check, the textual round trip of the metadata file, and add / drop / reset / clear column are not decided.",
+    "technique": "Kani/CBMC contract on the real metadata validation (Options::load_and_validate_metadata) with the file reader/writer replaced by contracts",
+    "claim": "Only the option-check clauses, at the function that implements them: for every combination of the eight per-column flags and up to two columns, load_and_validate_metadata accepts stored metadata exactly when the column count and every flag of every column agree with the requested options, reports a count mismatch and a flag mismatch as configuration errors, never rewrites the metadata of an existing database whatever the outcome, reports a missing database without creating anything unless creation was requested, and on creation writes metadata describing exactly the requested columns once. That no other database file is touched before this check, the textual round trip of the metadata file, and add / drop / reset / clear column are not decided.",
     "level_note": "Options::load_metadata (BufReader<File>, str parsing) and write_metadata (format!, fs::write) are contracts; DbInner::open creates the directory / lock file before this function runs (not under contract). Column administration functions work on directory listings and whole files and are out of reach.",
     "trusted_base": TB,
     "explanation": "Bounded in the number of columns (<= 2), complete over all flag combinations for those; level 'other' because only one function of the property is decided.",
